@@ -2159,3 +2159,33 @@ def c13_long_vector(rp):
             return True, (f"{rp['model']}.rate({n} teams, {rp['vec']} with {bad!r} at position {j}) " +
                           (verdict or "was rejected, but the ratings or the model had already been modified"))
     return False, "rejected without side effect"
+
+
+@checker("c13_long_teams")
+def c13_long_teams(rp):
+    """n teams, one malformed at position j: rejected before any side effect"""
+    H, HR, OR = model_cls(rp["model"]), rating_cls(rp["model"]), rating_cls(rp["other"])
+    n, j, what = rp["n"], rp["j"], rp["what"]
+    m = H()
+    teams = [[HR(25.0 + k, 8.0)] for k in range(n)]
+    good = [p for t in teams for p in t]
+    if what == "not-a-list":
+        teams[j] = tuple(teams[j])
+    elif what == "empty":
+        teams[j] = []
+    elif what == "non-rating-member":
+        teams[j] = [teams[j][0], 21]
+    else:
+        teams[j] = [OR(22.0, 5.0)]
+    before = [dict(p.__dict__) for p in good] + [dict(m.__dict__)]
+    try:
+        getattr(m, rp["op"])(teams)
+        verdict = "returned normally"
+    except (TypeError, ValueError):
+        verdict = None
+    except Exception as e:  # noqa: BLE001
+        verdict = f"raised {type(e).__name__}: {e}"
+    after = [dict(p.__dict__) for p in good] + [dict(m.__dict__)]
+    if verdict is not None or after != before:
+        return True, f"{rp['model']}.{rp['op']}({n} teams, {what} at position {j}) " + (verdict or "was rejected, but something had already been modified")
+    return False, "rejected without side effect"
